@@ -42,6 +42,30 @@ SemOK(in, argvs, exit) ==
          ELSE /\ argvs = [j \in DOMAIN o.execs |-> Argv(in, o.execs[j])]
               /\ exit = 1
 
+(***************************************************************************)
+(* -I R (in.repl = R, a non-empty byte string).  The input is split at     *)
+(* newlines only (or at the -0 / -d byte), every non-empty line is one     *)
+(* invocation: the initial arguments with every occurrence of R replaced   *)
+(* by the whole line, nothing appended.  The invocations run until one     *)
+(* ends fatally; the exit status is the same function of their outcomes.   *)
+(* Empty input runs nothing, with or without -r.                           *)
+(***************************************************************************)
+HasRepl(in) == "repl" \in DOMAIN in /\ in.repl # <<>>
+ReplLines(in) == R!RefSplit(in.stdin, IF in.delim < 0 THEN 10 ELSE in.delim).toks
+ReplArgv(in, line) == [a \in DOMAIN in.init |-> ReplaceSub(in.init[a], in.repl, line)]
+ReplOK(in, argvs, exit) ==
+  LET ls == ReplLines(in)
+      outs == [j \in DOMAIN ls |-> OutcomeAt(in.script, j)]
+      ex == X!RefExit(outs) IN
+  /\ argvs = [j \in 1..ex.started |-> ReplArgv(in, ls[j].b)]
+  /\ exit = ex.exit
+\* stated for lines free of quotes, backslashes and leading blanks (C20), and within C19's outcomes
+ReplDomain(in) ==
+  /\ \A i \in DOMAIN in.stdin : in.stdin[i] \notin {39, 34, 92} /\ (in.delim # 0 => in.stdin[i] # 0)
+  /\ \A j \in DOMAIN ReplLines(in) : ReplLines(in)[j].b[1] \notin {32, 9, 11, 12, 13}
+  /\ X!InDomainOuts([j \in DOMAIN ReplLines(in) |-> OutcomeAt(in.script, j)])
+  /\ in.n = 0 /\ in.L = 0 /\ in.s = 0
+
 \* no command: what would have been the appended arguments of each invocation is one output line
 Flag(in, f) == f \in DOMAIN in /\ in[f]
 EchoLine(in, b) == Join([j \in DOMAIN b |-> Toks(in).toks[b[j]].b], <<32>>) \o <<10>>
